@@ -105,6 +105,7 @@ Json op_create(Rng& rng, const Config& cfg, int disk = -1, bool odd_names = true
 Json op_cmd(const CmdSpec& s, const std::string& expect = "any");
 CmdSpec gen_sched(Rng& rng, CmdSpec s); // randomise schedule policy/seed
 std::vector<Json> gen_mutations(Rng& rng, const Config& cfg, int n, bool odd_names = true);
+std::vector<Json> gen_idiom(Rng& rng, const Config& cfg, int tag);
 std::vector<Json> gen_populate(Rng& rng, const Config& cfg, int per_disk_min, int per_disk_max, bool odd_names = true);
 
 // families -----------------------------------------------------------------
